@@ -10,9 +10,13 @@ mod c11;
 mod schema;
 mod c05;
 mod c06;
+mod c08;
 mod c09;
 
 use std::collections::HashMap;
+
+#[global_allocator]
+static GLOBAL: c08::Counting = c08::Counting;
 
 pub struct Args {
     pub kv: HashMap<String, String>,
@@ -60,6 +64,7 @@ fn main() {
         "c05" => c05::run(&args),
         "c06" => c06::run(&args),
         "c06b64" => c06::run_b64(&args),
+        "c08" => c08::run(&args),
         "c09" => c09::run(&args),
         other => {
             eprintln!("unknown command {other}");
